@@ -159,7 +159,7 @@ CHECKS["C13"] = dict(
         dict(name="unit-concurrent", test="TestUnitConcurrent", kind="rapid", checks={"quick": 150, "thorough": 6000}, shards=4, timeout={"quick": 600, "thorough": 3000}),
         dict(name="banned", test="TestBanned", kind="rapid", checks={"quick": 500, "thorough": 5000}, shards=1),
         dict(name="e2e-concurrent", test="TestE2EConcurrent", kind="rapid", checks={"quick": 8, "thorough": 400}, shards=16, timeout={"quick": 900, "thorough": 3400}, shrinktime="30s", crash_is_violation=True),
-        dict(name="e2e", test="TestE2E", kind="rapid", checks={"quick": 80, "thorough": 4000}, shards=16, timeout={"quick": 900, "thorough": 3400}, shrinktime="60s", gomaxprocs=4, crash_is_violation=True),
+        dict(name="e2e", test="TestE2E", kind="rapid", checks={"quick": 300, "thorough": 6000}, shards=16, timeout={"quick": 900, "thorough": 3400}, shrinktime="60s", gomaxprocs=4, crash_is_violation=True),
     ],
 )
 
